@@ -35,7 +35,7 @@ def describe(tier):
             "reference transducer, repairs a glued closing quote without touching whitespace and labels iff de-escaping changed the text; the "
             "comparison is on the complete result list, so it is both the forward and the converse direction. (3) PowerShell invocations from a "
             "grammar: token x value-less switches x EVERY prefix of -encodedcommand x -// style x argument quoting x payload x caret at EVERY "
-            "position (<=1) x prefix context, and plain invocations x enclosing context {none,'..',\"..\",('..'),unclosed variants} x prefix x suffix; FOR-loop / quoted contexts whose opener lies 0..2200 (thorough ..9000) bytes before the token, every distance, with further quotes inside the command. "
+            "position (<=1) x prefix context, and plain invocations x enclosing context {none,'..',\"..\",('..'),unclosed variants} x prefix x suffix; FOR-loop / quoted contexts whose opener lies 0..2200 (thorough ..9000) bytes before the token, every distance, with further quotes inside the command; every sequence of 2 (thorough 3) invocations from a 5-menu (plain / encoded, powershell / pwsh) x 5 shared contexts x 3 prefixes x 3 joiners x 3 suffixes, each invocation delimited on its own. "
             "(4) the same cmd reference on every value searched during scans of the shell/pwsh/mix scan-level families (nested contexts, decoded "
             "values). states = distinct inputs, transitions = decoder invocations compared, traces = comparisons with the reference. "
             "Non-trivial = an input on which the reference expects at least one result."
@@ -43,7 +43,7 @@ def describe(tier):
         "bounds": {"carets": CARETS.describe(tier), "cmd": CMD.describe(tier), "ps": ps_space(tier), "streams": STREAM_FAMS},
         "assumptions": [
             "PowerShell generator restricted to single-space separated, dash-style *other* switches and to contexts where 'the end of the encoded "
-            "argument' is unambiguous (no enclosing quote of the same kind directly after an unquoted argument, no carets inside a double-quoted argument)",
+            "argument' is unambiguous (no carets inside a double-quoted argument); a quote that follows an UNQUOTED argument closes the enclosing string and is not part of the argument (fix 43facd4)",
             "the cmd token grammar (\"cmd\", \"cmd.exe\", optional C:\\Windows\\System32\\ prefix, c^m^d with word boundaries) is re-implemented without regexes",
         ],
         "exhaustive": True,
@@ -55,6 +55,7 @@ def plan(tier, seed):
     units += [("cmd", tier, u[2]) for u in CMD.units(tier)]
     units += [("ps-enc", tier, i) for i in range(len(PS_TOKENS))]
     units += [("ps-plain", tier)] + [("ps-far", tier, i) for i in range(8)]
+    units += [("ps-multi", tier, i) for i in range(len(MULTI_INV))]
     units += [("stream", u) for u in streams.plan(tier, fams=STREAM_FAMS)]
     return units
 
@@ -242,6 +243,51 @@ def ps_plain_cases():
         yield data, start, exp, {"kind": "ps-plain", "data": data, "start": start, "end": end}
 
 
+# several invocations in one text / one context: each one is delimited on its own, whatever kind its neighbours are
+MULTI_INV = [("plain", b"powershell", [], b" -c ls"), ("enc", b"powershell", [], b"QQBCAA=="), ("plain", b"pwsh", [], b" -nop -c dir x"),
+             ("enc", b"pwsh", [b"-nop"], b"QQBCAEMA"), ("plain", b"PowerShell.exe", [], b"")]
+MULTI_CTX = [(b"", b""), (b"'", b"'"), (b'"', b'"'), (b"('", b"')"), (b'"', b"")]
+MULTI_PRE = [b"", b"cmd /c ", b"x = "]
+MULTI_JOIN = [b" & ", b"; ", b" && echo ok & "]
+MULTI_POST = [b"", b" & echo done", b" do echo %a"]
+
+
+def ps_multi_cases(tier, first):
+    L = 3 if tier == "thorough" else 2
+    for k in range(1, L):
+        for rest in itertools.product(range(len(MULTI_INV)), repeat=k):
+            seq = (first,) + rest
+            for (o, c), pre, join, post in itertools.product(MULTI_CTX, MULTI_PRE, MULTI_JOIN, MULTI_POST):
+                if pre == b"x = " and not o:
+                    continue
+                parts, starts, ends = [], [], []
+                pos = len(pre) + len(o)
+                for j, ii in enumerate(seq):
+                    kind, token, sw, tail = MULTI_INV[ii]
+                    if kind == "enc":
+                        inv = token + b"".join(b" " + x for x in sw) + b" -e " + tail
+                    else:
+                        inv = token + tail
+                    if j:
+                        pos += len(join)
+                    starts.append(pos)
+                    ends.append(pos + len(inv))
+                    parts.append(inv)
+                    pos += len(inv)
+                data = pre + o + join.join(parts) + c + post
+                close = len(pre) + len(o) + len(join.join(parts))
+                for j, ii in enumerate(seq):
+                    kind, token, sw, tail = MULTI_INV[ii]
+                    w = {"kind": "ps-multi", "data": data, "start": starts[j], "tier": tier, "first": first}
+                    if kind == "enc":
+                        yield data, starts[j], ps_expected_enc(data, starts[j], ends[j], token, list(sw), tail), w
+                    else:
+                        end = close if c else len(data)
+                        raw = data[starts[j]:end]
+                        de = shell_ref.strip_ref(raw)
+                        yield data, starts[j], ("shell.powershell", de, "unescape.shell.carets" if de != raw else "", starts[j], end, []), w
+
+
 # ---- (4) streams ---------------------------------------------------------------------------------------------
 
 
@@ -281,6 +327,13 @@ def run_unit(unit, rec):
             rec.mark("states", data, True)
             check_ps(rec, data, start, exp, w, len(data))
         rec.sample({"family": "ps-plain", "last": data})
+    elif kind == "ps-multi":
+        n = 0
+        for data, start, exp, w in ps_multi_cases(unit[1], unit[2]):
+            rec.mark("states", (data, start), True)
+            check_ps(rec, data, start, exp, w, len(data))
+            n += 1
+        rec.sample({"family": "ps-multi", "first": list(map(str, MULTI_INV[unit[2]][:2])), "cases": n, "last": data})
     elif kind == "ps-far":
         hi = 2200 if unit[1] == "quick" else 9000
         n = 0
@@ -320,3 +373,8 @@ def replay(w, rec):
         raw = data[start:end]
         de = shell_ref.strip_ref(raw)
         check_ps(rec, data, start, ("shell.powershell", de, "unescape.shell.carets" if de != raw else "", start, end, []), w, len(data))
+    elif k == "ps-multi":
+        for data, start, exp, w2 in ps_multi_cases(w["tier"], w["first"]):
+            if data == w["data"] and start == w["start"]:
+                check_ps(rec, data, start, exp, w2, len(data))
+                break
